@@ -217,6 +217,10 @@ def _first_wins(cx, repo, c_init, add):
 
 # -------------------------------------------------------------------------------------- R14d
 def _pending(cx, add):
+    # the rules below describe one algorithm: a work list of all pending items, an upward walk collecting a path, resolution over
+    # the reversed path, rounds until nothing new is resolved.  Another algorithm is not judged by them.
+    cx.need(assignments(add, "to_resolve") or assignments(add, "path"), "R14d", add,
+            "the resolution of pending items is not the work-list / path walk these rules are written for (another algorithm: not decided)")
     tr = [v for _, v in assignments(add, "to_resolve") if v is not None]
     ok = False
     if len(tr) == 1 and isinstance(tr[0], ast.DictComp):
@@ -303,7 +307,26 @@ def cache_rules(cx, repo, add, rule_b="R14e", rule_d="R14e"):
                     any(isinstance(e_, ast.Compare) and isinstance(e_.ops[0], ast.NotIn) and norm(e_.comparators[0]) == "self.syntax_map" for e_ in _c.generators[0].ifs)
             resets.append(("if-new" if ok else "other", s))
     good = [r for r in resets if r[0] in ("always", "if-new")]
-    cx.ob(rule_b, good[0][1] if good else store_loop, bool(good), "the palette cache is reset before any new id is stored (condition: some id is new)" if good else
+    if not good:
+        # the same on the flow graph, for any placement: every execution that stores a new id also resets the cache - before the
+        # store (no path from the entry to the store avoids a reset) or after it (no path from the store to a normal exit does)
+        from sa.cfg import CFG
+        g_ = CFG(add)
+        reset_ids = {g_.node_of(x).id for x in walk_local(add) if isinstance(x, ast.Assign) and any(is_self_attr(t, "_cache") for t in x.targets)
+                     and isinstance(x.value, ast.Dict) and not x.value.keys and g_.node_of(x) is not None}
+        stores_ = [enclosing_stmt(n) for n in ast.walk(store_loop) if isinstance(n, ast.Subscript) and isinstance(n.ctx, ast.Store) and norm(n.value) == "self.syntax_map"]
+        ok_all = bool(reset_ids) and bool(stores_)
+        for st_ in stores_:
+            nd = g_.node_of(st_)
+            if nd is None:
+                ok_all = False
+                continue
+            before = g_.reach_avoiding(g_.entry, {nd.id}, reset_ids, follow_raise=False) is None
+            after = g_.reach_avoiding(nd, {g_.exit.id}, reset_ids, follow_raise=False) is None
+            ok_all = ok_all and (before or after)
+        if ok_all:
+            good = [("flow", next(x for x in walk_local(add) if isinstance(x, ast.Assign) and any(is_self_attr(t, "_cache") for t in x.targets)))]
+    cx.ob(rule_b, good[0][1] if good else store_loop, bool(good), ("the palette cache is reset before any new id is stored (condition: some id is new)" if good and good[0][0] != "flow" else "every execution that stores a new id resets the palette cache before it returns") if good else
           "new ids are stored without resetting the palette cache first: palettes cached for this configuration keep stale colours")
     # other writers of _cache
     for m in repo.modules.values():
@@ -342,7 +365,35 @@ def cache_rules(cx, repo, add, rule_b="R14e", rule_d="R14e"):
     # global re-sync
     sync_calls = [c for c in walk_local(add) if isinstance(c, ast.Call) and call_name(c) == "set_global_colors_config"]
     ok = len(sync_calls) == 1 and [norm(a) for a in sync_calls[0].args] == ["self"]
-    if ok:
+    if ok and not assignments(add, "any_modifications"):
+        # no modification flag: decided on the flow graph - every execution that stored a new id reaches, before it returns,
+        # the test `self is _GLOBAL_COLORS_CONF` that guards the re-sync (and nothing else guards it)
+        from sa.cfg import CFG
+        from sa.guards import canon_test
+        own_if = parent(enclosing_stmt(sync_calls[0]))
+        pure = isinstance(own_if, ast.If) and enclosing_stmt(sync_calls[0]) in own_if.body and canon_test(own_if.test) in ({("is", "self", "_GLOBAL_COLORS_CONF", True)}, {("is", "_GLOBAL_COLORS_CONF", "self", True)})
+        cx.need(pure, rule_d, sync_calls[0], "condition of the re-sync is neither the modification flag idiom nor the plain identity test")
+        g_ = CFG(add)
+        gate = g_.node_of(own_if)
+        cx.need(gate is not None, rule_d, own_if, "re-sync test not found in the flow graph")
+        stores_ = [enclosing_stmt(n) for n in ast.walk(store_loop) if isinstance(n, ast.Subscript) and isinstance(n.ctx, ast.Store) and norm(n.value) == "self.syntax_map"]
+        res_ = [enclosing_stmt(c) for c in walk_local(add) if isinstance(c, ast.Call) and call_name(c) == "resolve"]
+        bad = None
+        for st_ in stores_ + res_:
+            nd = g_.node_of(st_)
+            if nd is None:
+                continue
+            pth = g_.reach_avoiding(nd, {g_.exit.id}, {gate.id}, follow_raise=False)
+            if pth is not None:
+                bad = (st_, [getattr(x.ast, "lineno", None) for x in pth if x.ast is not None][-6:])
+                break
+        cx.ob(rule_d, sync_calls[0], bad is None, "every execution that registers or resolves an item reaches the re-sync test of the global configuration" if bad is None else
+              f"after `{norm(bad[0])[:50]}` the function can return (lines {bad[1]}) without re-syncing the synced palettes of the global configuration: "
+              "palettes handed out earlier keep the colours of the old state")
+        return_flag_rules = False
+    else:
+        return_flag_rules = True
+    if ok and return_flag_rules:
         fs = facts(sync_calls[0])
         ok = any(norm(e) == "any_modifications" and pol for e, pol in fs) and any(isinstance(e, ast.Compare) and isinstance(e.ops[0], ast.Is) and pol and norm(e.left) == "self"
                                                                                   and norm(e.comparators[0]) == "_GLOBAL_COLORS_CONF" for e, pol in fs)
@@ -350,6 +401,8 @@ def cache_rules(cx, repo, add, rule_b="R14e", rule_d="R14e"):
         own_if = parent(enclosing_stmt(sync_calls[0]))
         if ok and isinstance(own_if, ast.If):
             ok = sorted(norm(e) for e, pol in split(own_if.test, True)) == ["any_modifications", "self is _GLOBAL_COLORS_CONF"] and parent(own_if) is add
+    if not return_flag_rules:
+        return
     cx.ob(rule_d, sync_calls[0] if sync_calls else add, ok, "a modified global configuration re-syncs the synced palettes" if ok else
           "modifying the global configuration does not trigger the re-sync of synced palettes")
     # any_modifications is set where an item is stored and where something gets resolved
